@@ -51,7 +51,7 @@ func sigOfFunc(fn *ssa.Function) *calleeSig {
 func sigOfIfaceMethod(recv types.Type, m *types.Func) *calleeSig {
 	sig := m.Type().(*types.Signature)
 	cs := &calleeSig{name: m.Name(), pkg: m.Pkg(), results: sig.Results()}
-	cs.params = append(cs.params, types.NewVar(m.Pos(), m.Pkg(), "recv", recv))
+	cs.params = append(cs.params, types.NewVar(m.Pos(), m.Pkg(), "self", recv))
 	for i := 0; i < sig.Params().Len(); i++ {
 		p := sig.Params().At(i)
 		if p.Name() == "" || p.Name() == "_" {
@@ -176,6 +176,14 @@ func (x *Exec) callValue(st *State, fr *Frame, common *ssa.CallCommon, fnVal Val
 				st.assume(Not(iv.Nil))
 			}
 			c.sig = sigOfIfaceMethod(recvT, common.Method)
+			// "site call <Method> assert e" at interface calls: parameters self, arg0.. (or their names)
+			bind := map[string]TV{}
+			for i, p := range c.sig.params {
+				if i < len(c.args) {
+					bind[p.Name()] = TV{c.args[i], p.Type()}
+				}
+			}
+			x.siteAsserts(st, fr, "call", mname, bind)
 			x.applyContract(st, fr, c, ct)
 			return
 		}
@@ -355,6 +363,19 @@ func (x *Exec) dispatch(st *State, fr *Frame, c *callCtx) {
 		return
 	}
 	x.inlined[key] = true
+	// a callee whose contract says "records <name>" is recorded also when its body is executed in place
+	// (arguments only; its results are whatever the body computes)
+	if contract != nil {
+		if rd := contract.Directives["records"]; rd != nil {
+			var as []TV
+			for i, p := range fn.Params {
+				if i < len(c.args) {
+					as = append(as, TV{c.args[i], p.Type()})
+				}
+			}
+			st.rec = append(append([]recordedCall(nil), st.rec...), recordedCall{Name: strings.TrimSpace(rd[0]), Args: as})
+		}
+	}
 	x.pushFrame(st, fn, c.args, c.ret, c.defer_)
 }
 
@@ -398,6 +419,27 @@ func (x *Exec) applyContract(st *State, fr *Frame, c *callCtx, ct *Contract) {
 	cs := c.calleeSig()
 	env := x.specEnvForSig(st, cs, c.fn, c.args, nil, nil)
 	x.extendEnv(env, st, fr)
+	// the callee's ghost constants: its contract holds for every value, here for a fresh arbitrary one
+	x.callCounter++
+	ghosts := map[string]TV{}
+	for _, d := range ct.Directives["ghost"] {
+		f := strings.Fields(d)
+		if len(f) != 2 {
+			continue
+		}
+		nm := fmt.Sprintf("ghost.%s!%d", f[0], x.callCounter)
+		switch f[1] {
+		case "int":
+			ghosts[f[0]] = TV{VScalar{x.sym.Named(nm, SInt)}, types.Typ[types.Int]}
+		case "string":
+			ghosts[f[0]] = TV{VScalar{x.sym.Named(nm, SStr)}, types.Typ[types.String]}
+		case "bool":
+			ghosts[f[0]] = TV{VScalar{x.sym.Named(nm, SBool)}, types.Typ[types.Bool]}
+		}
+	}
+	for k, v := range ghosts {
+		env.vars[k] = v
+	}
 	assumeReq := x.contract != nil && x.contract.Directives["assume-callee-requires"] != nil
 	for _, cl := range ct.Requires {
 		t, err := env.EvalBool(cl.Text)
@@ -447,6 +489,9 @@ func (x *Exec) applyContract(st *State, fr *Frame, c *callCtx, ct *Contract) {
 	}
 	env = x.specEnvForSig(st, cs, c.fn, c.args, results, heap0)
 	x.extendEnv(env, st, fr)
+	for k, v := range ghosts {
+		env.vars[k] = v
+	}
 	env.assume = true
 	for _, cl := range ct.Ensures {
 		// a clause tagged "body" speaks about what the callee's body does internally (its own recorded
